@@ -9,7 +9,8 @@ import z3
 
 from .values import (SymV, Opaque, AbsVal, Obj, ClassRef, ExtClass, FuncRef, BoundMethod, ExtFunc, ModRef,
                      PyList, PyDict, PySet, SymSeq, SymDict, SymColl, SDict, NpCell, NpArr, NpSlice, SliceV, NameK,
-                     EngineLimit, is_sym, ival, rval, bval, nameval, mk, kind_of, intern_name, NONE_ID, A1, A2)
+                     EngineLimit, is_sym, ival, rval, bval, nameval, mk, kind_of, intern_name, NONE_ID, A1, A2,
+                     ite_value, seq_concat)
 
 EXT_SUBMODULES = {"numpy.random", "os.path", "gymnasium.spaces", "gym.spaces", "yaml"}
 
@@ -110,6 +111,12 @@ def binop(I, op, a, b, node=None):
         return PyList(a.items + b.items)
     if isinstance(a, PyList) and isinstance(op, ast.Mult) and isinstance(b, int):
         return PyList(a.items * b)
+    if isinstance(a, PyList) and isinstance(op, ast.Mult) and isinstance(b, SymV) and b.ty == "int" and len(a.items) == 1:
+        x = a.items[0]
+        n = z3.simplify(z3.If(b.t < 0, 0, b.t))
+        return SymSeq(n, lambda i, x=x: x, "list", True, mutable=True)
+    if isinstance(a, PyList) and isinstance(op, ast.Add) and isinstance(b, SymSeq):
+        return seq_concat(list(a.items), b)
     if isinstance(a, float) and math.isinf(a) or isinstance(b, float) and math.isinf(b):
         raise EngineLimit("arithmetic with inf")
     k = _num_kind(a, b)
@@ -162,6 +169,9 @@ def _eq_term(I, a, b):
         if isinstance(other, (SymV, int, float, str)) or other is None:
             return False
         raise EngineLimit(f"== between {a!r} and {b!r}")
+    if (isinstance(a, (SymSeq, PyList, PyDict, SymDict)) and isinstance(b, (str, int, float))) or \
+       (isinstance(b, (SymSeq, PyList, PyDict, SymDict)) and isinstance(a, (str, int, float))):
+        return False
     ka, kb = kind_of(a), kind_of(b)
     if ka is None or kb is None:
         if isinstance(a, (ClassRef, ExtClass)) and isinstance(b, (ClassRef, ExtClass)):
@@ -286,7 +296,7 @@ def contains(I, coll, x, node=None):
             return False
         return z3.Or(*ts) if len(ts) > 1 else ts[0]
     if isinstance(coll, PyDict):
-        return contains(I, PyList(list(coll.d.keys())), x, node)
+        return contains(I, PyList(list(coll.d.keys()) + [e[0] for e in coll.sym]), x, node)
     if isinstance(coll, SymDict):
         return coll.dom(x)
     if isinstance(coll, SDict):
@@ -365,11 +375,15 @@ def getitem(I, obj, key, node=None):
         j = _index_1d(I, key, len(items), node)
         return items[j]
     if isinstance(obj, PyDict):
-        if is_sym(key) or (isinstance(key, tuple) and any(is_sym(k) for k in key)):
+        if obj.sym or is_sym(key) or (isinstance(key, tuple) and any(is_sym(k) for k in key)):
             for k in obj.d:
                 t = _eq_term(I, key, k)
                 if t is True or (t is not False and I.ctx.branch(t)):
                     return obj.d[k]
+            for ent in obj.sym:
+                t = _eq_term(I, key, ent[0])
+                if t is True or (t is not False and I.ctx.branch(t)):
+                    return ent[1]
             I.raise_("KeyError", node)
         check_hashable_concrete(key)
         if key not in obj.d:
@@ -472,6 +486,20 @@ def setitem(I, obj, key, v, node=None):
         if is_sym(key) or (isinstance(key, tuple) and any(is_sym(k) for k in key)):
             if not obj.fresh:
                 I.ctx.writes.append(("dict", obj))
+            if isinstance(key, tuple) and all(kind_of(k) in ("int", "name") for k in key):
+                # a symbolic tuple key: overwrite the entry it equals (decided by forking), else a new entry
+                for k in obj.d:
+                    t = _eq_term(I, key, k)
+                    if t is True or (t is not False and I.ctx.branch(t)):
+                        obj.d[k] = v
+                        return
+                for ent in obj.sym:
+                    t = _eq_term(I, key, ent[0])
+                    if t is True or (t is not False and I.ctx.branch(t)):
+                        ent[1] = v
+                        return
+                obj.sym.append([key, v])
+                return
             raise EngineLimit("symbolic key stored into a concrete dict")
         check_hashable_concrete(key)
         if not obj.fresh:
@@ -590,7 +618,7 @@ def _len(I, v, node=None):
     if isinstance(v, PyList):
         return len(v.items)
     if isinstance(v, PyDict):
-        return len(v.d)
+        return len(v.d) + len(v.sym)
     if isinstance(v, PySet):
         return len(v.items)
     if isinstance(v, SymSeq):
@@ -1010,6 +1038,12 @@ def _m_append(I, b, a, kw, node):
             I.ctx.writes.append(("list", b))
         b.items.append(a[0])
         return None
+    if isinstance(b, SymSeq) and b.mutable:
+        old_n, old_elem, x = b.n, b.elem, a[0]
+        b.elem = lambda i, old_n=old_n, old_elem=old_elem, x=x: ite_value(ival(i) == ival(old_n), x, old_elem(i)) \
+            if not (isinstance(i, int) and isinstance(old_n, int)) else (x if i == old_n else old_elem(i))
+        b.n = old_n + 1 if isinstance(old_n, int) else z3.simplify(old_n + 1)
+        return None
     raise EngineLimit("append on symbolic sequence")
 
 
@@ -1047,10 +1081,10 @@ def _m_lindex(I, b, a, kw, node):
 def _dict_items(I, b, what):
     if isinstance(b, PyDict):
         if what == "items":
-            return PyList([(k, v) for k, v in b.d.items()])
+            return PyList([(k, v) for k, v in b.d.items()] + [(e[0], e[1]) for e in b.sym])
         if what == "keys":
-            return PyList(list(b.d.keys()))
-        return PyList(list(b.d.values()))
+            return PyList(list(b.d.keys()) + [e[0] for e in b.sym])
+        return PyList(list(b.d.values()) + [e[1] for e in b.sym])
     if isinstance(b, SymDict):
         if b.keys is None:
             raise EngineLimit(f"{what}() of unordered symdict")
@@ -1093,11 +1127,15 @@ def _m_get(I, b, a, kw, node):
     key = a[0]
     default = a[1] if len(a) > 1 else None
     if isinstance(b, PyDict):
-        if is_sym(key) or (isinstance(key, tuple) and any(is_sym(k) for k in key)):
+        if b.sym or is_sym(key) or (isinstance(key, tuple) and any(is_sym(k) for k in key)):
             for k in b.d:
                 t = _eq_term(I, key, k)
                 if t is True or (t is not False and I.ctx.branch(t)):
                     return b.d[k]
+            for ent in b.sym:
+                t = _eq_term(I, key, ent[0])
+                if t is True or (t is not False and I.ctx.branch(t)):
+                    return ent[1]
             return default
         check_hashable_concrete(key)
         return b.d.get(key, default)
@@ -1300,6 +1338,64 @@ def _m_rand(I, b, a, kw, node):
     return SymV(u, "real")
 
 
+@ext("numpy.random.randint")
+def _m_randint(I, b, a, kw, node):
+    # assumed NumPy contract: randint(lo, hi) / randint(hi) returns an int in [lo, hi)
+    if len(a) == 1:
+        lo, hi = 0, a[0]
+    else:
+        lo, hi = a[0], a[1]
+    r = I.ctx.fresh("randint", z3.IntSort())
+    if I.ctx.branch(ival(hi) <= ival(lo)):
+        I.raise_("ValueError", node)
+    I.ctx.assume(z3.And(ival(lo) <= r, r < ival(hi)))
+    I.ctx.draws.append(("randint", r))
+    return SymV(r, "int")
+
+
+@ext("numpy.random.random_sample")
+def _m_random_sample(I, b, a, kw, node):
+    # assumed: n independent uniforms in [0, 1)
+    n = a[0] if a else 1
+    f = z3.Function(I.ctx.fresh("rs", z3.IntSort()).decl().name() + "_f", z3.IntSort(), z3.RealSort())
+    k = z3.Int("_rs_k")
+    I.ctx.assume(z3.ForAll([k], z3.And(f(k) >= 0, f(k) < 1)))
+    I.ctx.draws.append(("random_sample", n))
+    return SymSeq(n if isinstance(n, int) else ival(n), lambda i, f=f: mk(f(ival(i)), "real"), "ndarray-1d")
+
+
+@ext("numpy.random.choice")
+def _m_choice(I, b, a, kw, node):
+    seq = a[0]
+    size = a[1] if len(a) > 1 else kw.get("size")
+    if size is None:
+        od = getattr(seq, "order_determined", True)
+        if not od:
+            I.ctx.oblige("pre@numpy.random.choice:order-determined-argument", z3.BoolVal(False), kind="pre",
+                         info={"tags": ["C14"]})
+        items = I.as_sequence(seq)
+        if isinstance(items, list):
+            if not items:
+                I.raise_("ValueError", node)
+            j = I.ctx.fresh("choice", z3.IntSort())
+            I.ctx.draws.append(("choice", j))
+            for idx, it in enumerate(items[:-1]):
+                if I.ctx.branch(j == idx):
+                    return it
+            return items[-1]
+        j = I.ctx.fresh("choice", z3.IntSort())
+        I.ctx.assume(z3.And(0 <= j, j < ival(items.n)))
+        I.ctx.draws.append(("choice", j))
+        return items.elem(j)
+    # choice(levels, n, p=...) : n draws, each a member of levels
+    levels = I.iter_concrete(seq)
+    f = z3.Function(I.ctx.fresh("ch", z3.IntSort()).decl().name() + "_f", z3.IntSort(), z3.RealSort())
+    k = z3.Int("_ch_k")
+    I.ctx.assume(z3.ForAll([k], z3.Or(*[f(k) == rval(x) for x in levels])))
+    I.ctx.draws.append(("choice-n", size))
+    return SymSeq(size if isinstance(size, int) else ival(size), lambda i, f=f: mk(f(ival(i)), "real"), "ndarray-1d")
+
+
 @ext("numpy.random.seed")
 def _m_seed(I, b, a, kw, node):
     I.ctx.draws.append(("seed", a[0] if a else None))
@@ -1345,6 +1441,19 @@ def _m_ceil(I, b, a, kw, node):
     if not is_sym(v):
         return math.ceil(v)
     t = rval(v)
+    # ceil(a / b) for an integer a and a positive integer literal b: pure integer arithmetic (a + b - 1) div b
+    if z3.is_app(t) and t.decl().kind() == z3.Z3_OP_DIV and t.num_args() == 2:
+        num, den = t.arg(0), z3.simplify(t.arg(1))
+        if z3.is_app(num) and num.decl().kind() == z3.Z3_OP_TO_REAL and z3.is_rational_value(den) \
+                and den.denominator_as_long() == 1 and den.numerator_as_long() > 0:
+            b_ = den.numerator_as_long()
+            return mk((num.arg(0) + (b_ - 1)) / b_, "int")
+    if z3.is_app(t) and t.decl().kind() == z3.Z3_OP_MUL and t.num_args() == 2:
+        coef, num = z3.simplify(t.arg(0)), t.arg(1)
+        if z3.is_rational_value(coef) and coef.numerator_as_long() == 1 and coef.denominator_as_long() > 0 \
+                and z3.is_app(num) and num.decl().kind() == z3.Z3_OP_TO_REAL:
+            b_ = coef.denominator_as_long()
+            return mk((num.arg(0) + (b_ - 1)) / b_, "int")
     return mk(-z3.ToInt(-t), "int")
 
 
